@@ -191,13 +191,19 @@ def deep_subterms(ctx: Ctx, f: Func, t: Term, max_depth: int = 4, prune=None):
                     if arg is not None:
                         visit(caller, arg, depth + 1)
             return
+        # component i of a call of a package function that returns a tuple: `a, b = f()` and `r = f(); r[1]` alike
+        comp = None
         if k == "item" and x[1][0] == "call":
+            comp = x[2]
+        elif k == "sub" and x[1][0] == "call" and x[2][0] == "const" and isinstance(x[2][1], int) and not isinstance(x[2][1], bool):
+            comp = x[2][1]
+        if comp is not None:
             done = False
             for h in ctx.cg.resolve_fn(x[1][1], g):
                 rt = ctx.X.return_term(h)
                 for a in (rt[1] if rt[0] == "phi" else (rt,)):
-                    if a[0] == "tuple" and 0 <= x[2] < len(a[1]):
-                        visit(h, a[1][x[2]], depth + 1)
+                    if a[0] == "tuple" and 0 <= comp < len(a[1]):
+                        visit(h, a[1][comp], depth + 1)
                         done = True
             if done:
                 return
@@ -614,3 +620,70 @@ def value_closure(ctx, t):
             stack.append(x[3])
         else:
             stack.extend(children(x))
+
+
+def walrus_binds_before(root: ast.AST, use: ast.Name) -> bool:
+    """Inside one evaluated expression/statement ``root``: is there a `(name := ...)` binding ``use.id`` that is
+    definitely evaluated before the read ``use`` whenever the read is evaluated?  (Python evaluates operands left
+    to right, the test of a conditional expression first, later operands of and/or only after the earlier ones.)"""
+    from .model import parent
+
+    def chain(n):
+        out = [n]
+        while out[-1] is not root and parent(out[-1]) is not None:
+            out.append(parent(out[-1]))
+        return out if out[-1] is root else None
+
+    uchain = chain(use)
+    if uchain is None:
+        return False
+    upos = {id(x): i for i, x in enumerate(uchain)}
+    for w in ast.walk(root):
+        if not (isinstance(w, ast.NamedExpr) and isinstance(w.target, ast.Name) and w.target.id == use.id):
+            continue
+        wchain = chain(w)
+        if wchain is None:
+            continue
+        # lowest common ancestor
+        lca_i = next((i for i, x in enumerate(wchain) if id(x) in upos), None)
+        if lca_i is None or lca_i == 0:
+            # the use is inside the walrus' own value: evaluated before the binding
+            continue
+        lca = wchain[lca_i]
+        wbranch = wchain[lca_i - 1]
+        ui = upos[id(lca)]
+        if ui == 0:
+            continue
+        ubranch = uchain[ui - 1]
+        # the walrus must be evaluated unconditionally within its branch
+        cond = False
+        for child, par in zip(wchain[:lca_i - 1], wchain[1:lca_i]):
+            if isinstance(par, ast.BoolOp) and par.values and par.values[0] is not child:
+                cond = True
+            if isinstance(par, ast.IfExp) and child is not par.test:
+                cond = True
+            if isinstance(par, (ast.ListComp, ast.SetComp, ast.GeneratorExp, ast.DictComp, ast.Lambda)):
+                cond = True
+        if cond:
+            continue
+        if isinstance(lca, ast.IfExp):
+            if wbranch is lca.test and ubranch is not lca.test:
+                return True
+            continue
+        if isinstance(lca, ast.BoolOp):
+            vals = list(lca.values)
+            if any(v is wbranch for v in vals) and any(v is ubranch for v in vals):
+                if [i for i, v in enumerate(vals) if v is wbranch][0] < [i for i, v in enumerate(vals) if v is ubranch][0]:
+                    return True
+            continue
+        if isinstance(lca, (ast.ListComp, ast.SetComp, ast.GeneratorExp, ast.DictComp, ast.Lambda)):
+            continue
+        # plain left-to-right evaluation of the children
+        order = [id(c) for c in ast.iter_child_nodes(lca)]
+        if isinstance(lca, (ast.Assign, ast.AnnAssign, ast.AugAssign)):
+            # the value is evaluated before the targets
+            val = getattr(lca, "value", None)
+            order = ([id(val)] if val is not None else []) + [i for i in order if val is None or i != id(val)]
+        if id(wbranch) in order and id(ubranch) in order and order.index(id(wbranch)) < order.index(id(ubranch)):
+            return True
+    return False
